@@ -131,11 +131,31 @@ func runCheck(eng *Engine, start time.Time) int {
 			timeout = 400
 		}
 	}
-	workdir := *flagOut
-	if *flagProp != "" {
-		workdir = workdir + "/" + *flagProp
+	// one working directory per run (property, tier, process): two runs of the same property must not delete each
+	// other's SMT files; directories left by processes that no longer exist are removed first
+	base := *flagProp
+	if base == "" {
+		base = "all"
 	}
-	os.RemoveAll(workdir)
+	if ents, err := os.ReadDir(*flagOut); err == nil {
+		for _, en := range ents {
+			nm := en.Name()
+			if !strings.HasPrefix(nm, base+".") && nm != base {
+				continue
+			}
+			parts := strings.Split(nm, ".")
+			alive := false
+			if len(parts) >= 3 {
+				if _, err := os.Stat("/proc/" + parts[len(parts)-1]); err == nil {
+					alive = true
+				}
+			}
+			if !alive {
+				os.RemoveAll(*flagOut + "/" + nm)
+			}
+		}
+	}
+	workdir := fmt.Sprintf("%s/%s.%s.%d", *flagOut, base, *flagTier, os.Getpid())
 	os.MkdirAll(workdir, 0755)
 	var units []*Unit
 	var jobs []job
